@@ -60,6 +60,7 @@ type Emission struct {
 	Call  *ssa.Call
 	Elems []*E
 	RC    Ref
+	Act   *Summary // activation the append was evaluated in (nil: the evaluated function itself)
 }
 
 // emissionsOf lists the emissions of fn (result index resultIdx) under the
@@ -107,7 +108,7 @@ func emissionsG(g *Gate, s *Summary, resultIdx int) []Emission {
 				continue
 			}
 			seen[em.Call][em.Act] = true
-			out = append(out, Emission{Call: em.Call, Elems: em.Elems, RC: em.RC})
+			out = append(out, Emission{Call: em.Call, Elems: em.Elems, RC: em.RC, Act: em.Act})
 		}
 	}
 	// results delivered through a pointer parameter: appends stored into a slice field of the
@@ -144,7 +145,7 @@ func emissionsG(g *Gate, s *Summary, resultIdx int) []Emission {
 					continue
 				}
 				seen[em.Call][em.Act] = true
-				out = append(out, Emission{Call: em.Call, Elems: em.Elems, RC: em.RC})
+				out = append(out, Emission{Call: em.Call, Elems: em.Elems, RC: em.RC, Act: em.Act})
 			}
 		}
 	}
